@@ -192,10 +192,8 @@ def run(tier, seed, replay=None):
                 want2 = block_spec(gs, c0, c1)
                 R.count("block_rectangle_checked")
                 if want2 is not None and (gs[c0] == "\n" or gs[c1] == "\n"):
-                    R.count("block_corner_on_terminator")
-                    if res["ok"] != want2:
-                        R.count("block_corner_on_terminator_differs")
-                elif want2 is not None and res["ok"] != want2:
+                    R.count("block_corner_on_terminator")     # (visual mode lets the cursor onto a terminator)
+                if want2 is not None and res["ok"] != want2:
                     R.violation("block selection %r is not the rectangle between cursor %d and %d: %r" % (res["ok"][:80], c0, c1, want2[:80]), c)
         else:
             R.count("selected_by_model_only")
